@@ -40,17 +40,15 @@ ThSet == { F.ths[t] : t \in DOMAIN F.ths }
 
 \* what an honest member of fixture G produces for (threshold T, index i)
 HonestVoteOf(G, v, T, i) == [v |-> v, ci |-> i, cs |-> StepPrecommit, cd |-> 1, pb |-> "ok",
-                             j |-> Max0(Seat(G, v, T, i, StepPrecommit, 1)), sb |-> 1, sr |-> 1, si |-> i]
-HonestPropOf(G, p, T, i) == [p |-> p, ci |-> i, cs |-> StepProposal, cd |-> 1, pb |-> "ok",
-                             j |-> IF Member(G, p) THEN Max0(Seat(G, p, T, i, StepProposal, 1)) ELSE 1, prio |-> "ok"]
+                             j |-> Max0(Seat(G, v, T, i, StepPrecommit, 1)), sb |-> 1, sr |-> 1, si |-> i, bk |-> 0]
 HonestVote(v, T, i) == HonestVoteOf(F, v, T, i)
 HonestProp(p, T, i) == HonestPropOf(F, p, T, i)
-StrangerVote(i) == [v |-> NV(F) + 1, ci |-> i, cs |-> StepPrecommit, cd |-> 1, pb |-> "ok", j |-> 1, sb |-> 1, sr |-> 1, si |-> i]
+StrangerVote(i) == [v |-> NV(F) + 1, ci |-> i, cs |-> StepPrecommit, cd |-> 1, pb |-> "ok", j |-> 1, sb |-> 1, sr |-> 1, si |-> i, bk |-> 0]
 \* certificate votes: step Certificate, the certificate look-back seed, seat count with the certificate set's stake
 HonestCertOf(G, v, T, i) == [v |-> v, ci |-> i, cs |-> StepCert, cd |-> 3, pb |-> "ok",
-                             j |-> Max0(G.cseat[v][ThIdx(G, T)][i][StepCert][3]), sb |-> 1, sr |-> 1, si |-> i, ls |-> 1]
+                             j |-> Max0(G.cseat[v][ThIdx(G, T)][i][StepCert][3]), sb |-> 1, sr |-> 1, si |-> i, bk |-> 0, ls |-> 1]
 HonestCert(v, T, i) == HonestCertOf(F, v, T, i)
-StrangerCert(i) == [v |-> NV(F) + 1, ci |-> i, cs |-> StepCert, cd |-> 3, pb |-> "ok", j |-> 1, sb |-> 1, sr |-> 1, si |-> i, ls |-> 1]
+StrangerCert(i) == [v |-> NV(F) + 1, ci |-> i, cs |-> StepCert, cd |-> 3, pb |-> "ok", j |-> 1, sb |-> 1, sr |-> 1, si |-> i, bk |-> 0, ls |-> 1]
 
 Init == \E c \in Cfgs : LET G == Fixtures[c] IN
         h = [cfg |-> c, declV |-> G.protoV, declP |-> G.protoP, pidx |-> 1, vidx |-> 1,
@@ -117,6 +115,17 @@ ResignSet == \E what \in {"blk", "rnd", "idx"} :
                           [] OTHER        -> [x EXCEPT !.si = OtherIdx(x.si)] IN
           /\ vs # <<>>
           /\ Forge([h EXCEPT !.votes = [n \in DOMAIN vs |-> alt(vs[n])]])
+\* the QUORUM BOUNDARY, systematically: the honest votes of any subset of the entitled (online chamber) members -- every valid weight
+\* the configuration can reach, in particular q - 1, q and the weights between floor(0.585 T) and floor(0.685 T)
+Nth(S, n) == CHOOSE v \in S : Cardinality({ u \in S : u < v }) = n - 1
+OnlineChamber(vals) == { v \in 1..Len(vals) : vals[v].kind = "chamber" /\ vals[v].on }
+ChooseVoters == \E S \in SUBSET OnlineChamber(F.vals) :
+          /\ S # {}
+          /\ Forge([h EXCEPT !.votes = [n \in 1..Cardinality(S) |-> HonestVote(Nth(S, n), h.declV, h.vidx)]])
+\* a share made with the BLS key the validator holds in the sibling configuration (retired / not yet registered here)
+ResignRetired == \E n \in DOMAIN h.votes :
+          /\ h.votes[n].v \in { F.rekeyed[m] : m \in DOMAIN F.rekeyed } /\ h.votes[n].bk = 0 /\ h.votes[n].sb # 0
+          /\ Forge([h EXCEPT !.votes[n].bk = 1])
 Reorder == \E n \in DOMAIN h.votes : n < Len(h.votes) /\
           LET vs == h.votes IN
           Forge([h EXCEPT !.votes = [m \in DOMAIN vs |-> IF m = n THEN vs[n + 1] ELSE IF m = n + 1 THEN vs[n] ELSE vs[m]]])
@@ -202,7 +211,7 @@ CReplaySet == \E what \in {"idx", "step", "seed"} :
 CFromPrecommits == /\ CertList /\ h.votes # <<>>
                    /\ LET vs == h.votes IN
                       Forge([h EXCEPT !.cvotes = [n \in DOMAIN vs |-> [v |-> vs[n].v, ci |-> vs[n].ci, cs |-> vs[n].cs, cd |-> vs[n].cd, pb |-> vs[n].pb,
-                                                                      j |-> vs[n].j, sb |-> vs[n].sb, sr |-> vs[n].sr, si |-> vs[n].si, ls |-> 1]]])
+                                                                      j |-> vs[n].j, sb |-> vs[n].sb, sr |-> vs[n].sr, si |-> vs[n].si, bk |-> vs[n].bk, ls |-> 1]]])
 \* certificate votes produced against the WRONG look-back set: list indices and stakes of the stake look-back set
 CFromStakeSet == /\ CertList /\ h.cvotes # <<>>
                  /\ LET cs == h.cvotes IN
@@ -218,15 +227,18 @@ DeclareC == \E T \in ThSet \ {h.declC}, adapt \in BOOLEAN :
           /\ Forge([h EXCEPT !.declC = T, !.cvotes = IF adapt THEN adapted ELSE cs])
 CCorruptAgg == \E a \in {"flip", "unrelated"} : CertList /\ h.cagg = "ok" /\ Forge([h EXCEPT !.cagg = a])
 \* no Certificate field at all / an empty certificate list / another round index inside the Certificate field
+CChooseVoters == \E S \in SUBSET OnlineChamber(F.cvals) :
+          /\ CertList /\ S # {}
+          /\ Forge([h EXCEPT !.cvotes = [n \in 1..Cardinality(S) |-> HonestCert(Nth(S, n), h.declC, h.vidx)]])
 COmit == CertList /\ Forge([h EXCEPT !.cf = "absent"])
 CEmpty == CertList /\ h.cvotes # <<>> /\ Forge([h EXCEPT !.cvotes = <<>>])
 SetCfIdx == CertList /\ Forge([h EXCEPT !.cfidx = OtherIdx(h.cfidx)])
 \* plain rounds: header.Certificate is not consulted, whatever it contains
 JunkCert == \E c \in {"junk", "absent"} : ~F.certRound /\ h.cf = "std" /\ Forge([h EXCEPT !.cf = c])
 
-NextCert == \/ CDrop \/ CDup \/ CRepeat \/ CAdd \/ CAlterCred \/ CReplaySet \/ CInflate \/ CInflateMax \/ CResign \/ CFromPrecommits \/ CFromStakeSet
+NextCert == \/ CDrop \/ CDup \/ CRepeat \/ CChooseVoters \/ CAdd \/ CAlterCred \/ CReplaySet \/ CInflate \/ CInflateMax \/ CResign \/ CFromPrecommits \/ CFromStakeSet
             \/ DeclareC \/ CCorruptAgg \/ COmit \/ CEmpty \/ SetCfIdx \/ JunkCert
-NextPre == \/ Drop \/ Dup \/ Repeat \/ Add \/ AlterCred \/ Inflate \/ InflateMax \/ Resign \/ ReplaySet \/ ResignSet \/ Reorder \/ CorruptAgg
+NextPre == \/ Drop \/ Dup \/ Repeat \/ ChooseVoters \/ ResignRetired \/ Add \/ AlterCred \/ Inflate \/ InflateMax \/ Resign \/ ReplaySet \/ ResignSet \/ Reorder \/ CorruptAgg
            \/ DeclareV \/ DeclareP \/ SetVidx \/ SetPidx
            \/ SwapProposer \/ BadPriority \/ PropInflate \/ PropAlter
 Next == NextCert \/ (Side = "all" /\ NextPre)
@@ -248,6 +260,7 @@ EntitledNoFail == /\ Entitled(F, h) <=> (Fail(F, h, Dev) = {})
 Tempting == TemptingX(VX(F, h, "pre")) /\ (F.certRound => (h.cf = "list" /\ TemptingX(VX(F, h, "cert"))))
 \* a cheap structural hash of a description (TLC has no hash function): only used to thin out the printed bulk
 PH(x) == (SumSeq([n \in DOMAIN x.votes |-> (n + 1) * (x.votes[n].j + 3 * x.votes[n].v + 5 * x.votes[n].ci + 7 * x.votes[n].cs + 11 * x.votes[n].sb + x.votes[n].si)])
+          + SumSeq([n \in DOMAIN x.votes |-> 13 * x.votes[n].bk])
           + SumSeq([n \in DOMAIN x.cvotes |-> (n + 2) * (x.cvotes[n].j + 3 * x.cvotes[n].v + 5 * x.cvotes[n].ci + 7 * x.cvotes[n].cs + 11 * x.cvotes[n].sb + x.cvotes[n].ls)])
           + x.declV + 3 * x.declP + 5 * x.declC + x.pidx + 2 * x.vidx + x.prop.j + 3 * x.prop.p + Len(x.votes) + 2 * Len(x.cvotes)) % 8
 Printed == Sample = 8 \/ h.d <= 1 \/ ~Tempting \/ CodeAccepts(F, h) \/ CodeAcceptsAC(F, h) \/ PH(h) = Sample
